@@ -51,6 +51,15 @@ def report(prop, tier, seed, cfg, docs, t0):
             got = d["counters"].get(k, 0)
             if got < minimum:
                 raise Machinery("vacuity guard: %s[%s] counter %s = %d < floor %d" % (prop, b, k, got, minimum))
+    # optional program-space part of the same property (E2), merged into this evidence
+    if cfg.get("extra"):
+        xc, xv, xs = cfg["extra"](tier)
+        for k, v in xc.items():
+            counters[k] = counters.get(k, 0) + v
+        violations += xv
+        samples = xs[:2] + samples
+        counters["states"] = counters.get("states", 0) + xc.get("constant_probes", 0)
+        counters["transitions"] = counters.get("transitions", 0) + xc.get("constant_probes", 0)
     states = counters.get("states", 0)
     transitions = counters.get("transitions", 0)
     coverage = {
